@@ -37,7 +37,7 @@ CLAIMED = {
             "x batch size (incl. batch == folds); theorem C02_folded_sound for the address-book evaluation; row-independence and shape oracles",
             "The reference semantics is the executable Gallina denotation; every compiled output is compared with it as exact rationals inside Coq. "
             "The folding theorem is machine-checked; the semiring morphism (exp/log) and the per-layer torch kernels are tied by correspondence only.",
-            "No theorem yet states compile_plain = den for the torch layer kernels: that part is correspondence (partial)."),
+            "Theorems C01_hom_eval (one denotation serves all semirings), C01_denotation_is_semantic (executable den = semantic eval on the algebraic fragment) and C01_folded_evaluation are machine-checked; that the torch layer kernels compute the model's layer functions is correspondence (partial)."),
     "C02": ("Coq theorem C02_folded_sound (consistent address book => folded evaluation = unfolded evaluation, modules arbitrary functions) + four-flag "
             "differential on operator pipelines with parameters written through the registry + registry addressability checks + model denotation at the updated values",
             "Machine-checked proof of address-book soundness on the abstract folded-graph model; the implementation's folding/optimisation is compared numerically "
@@ -59,14 +59,14 @@ CLAIMED = {
             "Gaussian / Binomial normalisation of the input layers themselves is an analytic fact taken as hypothesis."),
     "C13": ("Exact central difference quotient of the model's denotation (computed in Coq) vs autograd gradients mapped back through the registry + flag-independence + finite differences",
             "The folding/denotation theorems hold over any commutative semiring (hence over dual numbers); gradients are tied numerically to the model's exact difference quotient.",
-            "torch autograd of primitive operations is trusted; no dual-number instantiation theorem yet (partial)."),
+            "Theorems C13_dual_semiring / dual_primal / leibniz / polynomial_derivative instantiate the circuit theorems at dual numbers; torch autograd of primitive operations is trusted and tied numerically."),
     "C14": ("Executable Gallina semantics of every parameter node (coq/Pexpr.v peval) compared exactly inside Coq with compiled / folded parameter graphs over node types x shapes x "
             "axes (both signs) x folds x compositions + translator route: shape/axis expressions regenerated from source and proved equal to the model (GenAgree.v)",
             "Each node's mathematical definition is the Gallina function; the source's axis arithmetic is re-translated on every run and proved to select the declared axis.",
             "Transcendental functions evaluated with 80-bit fixed point in the model."),
-    "C15": ("Chi-square test decided inside Coq with the model's exact probabilities (p < 1e-9) + positivity and column checks on the returned samples",
-            "Statistical correspondence only for the law of the sampler; the structural parts (columns, support) are exact.",
-            "No push-forward theorem yet; torch RNG trusted (partial)."),
+    "C15": ("Coq theorems C15_sampling_law (ancestral sampling weight of the outcomes consistent with an assignment = circuit value, every node and unit), C15_support, C15_columns + chi-square test decided inside Coq with the model's exact probabilities (p < 1e-9) + positivity and column checks on the returned samples",
+            "The push-forward law of the ancestral-sampling model is machine-checked for all ok circuits with finite-domain inputs; the implementation's sampler is tied to it statistically (its RNG cannot be compared exactly); columns and support are exact.",
+            "torch RNG trusted; the statistical tie cannot exhibit deviations below the test's power (partial)."),
     "C16": ("Coq theorems C16_valid_spec, C16_sd_flag, C16_fully_factorized, C16_linear_tree + verified predicates evaluated on every exported region graph and circuit + dump/load round trip",
             "Validity and the structured-decomposability flag are decided by verified predicates on every generated graph; two constructions are proved valid for all sizes.",
             "RandomBinaryTree, QuadTree/QuadGraph, Poon-Domingos and Chow-Liu are certified per instance only."),
@@ -79,7 +79,7 @@ CLAIMED = {
             "Round-trip proved on the association-list model under unique equal names; names and reloaded values are checked on the implementation.", ""),
     "C20": ("Model denotation of the exported template circuits compared with compiled outputs inside Coq + documented contractions (CP, Tucker, tensor train, HMM forward algorithm, "
             "fully factorised, truth tables / model counts) computed from the parameters read through the registry",
-            "Templates are tied to their formulas by per-instance oracles and to the model by correspondence.", "No formula theorem yet (partial)."),
+            "Theorems C20_cp, C20_tucker, C20_tucker_order2, C20_hmm prove the documented contractions for the model circuits of those shapes (all sizes and parameters); the templates' exported circuits are tied to the model by correspondence and to the formulas by per-instance oracles.", "Tensor-train and logic-formula templates: per-instance oracles only."),
 }
 
 NOT_YET = {}
